@@ -15,6 +15,8 @@ Driver for mapper operation histories (C01, C02, C09, C10, C11 token half).
         A <k>                   allocator requests made
         D <n> f*                deallocated frames, in order
         W <n> (f i v)*          words of the simulated memory that changed, sorted by (f, i)
+  mh_crash <opcode> <szcode> <page> <frame> <flags> <pflags>  =>  crash
+      printed by the harness' fault handler instead of the observation when the call died with SIGSEGV
         P <n> (per probe: 5 translate numbers, 2 translate_addr numbers, 3×2 translate_page numbers)
 
 The model replays the same operation on its own memory and must produce the same observation.
@@ -432,6 +434,12 @@ def handleMapper : SHandler MState := fun _cfg op a impl st =>
               { st with mm := mm', im := im', abs := abs', imPrev := st.im, lastOpcode := opcode,
                         lastPage := pageEff, lastProbes := probes, lastPreTables := preTables })
     | _ => none
+  | "mh_crash" =>
+    -- the harness process died with a memory fault inside this mapper call: the real code dereferenced an
+    -- address outside the simulated physical memory (C09: "read and write only … page tables of that
+    -- hierarchy"); nothing can be said about the state afterwards, the history ends here
+    some ({ model := impl, oracleOk := false,
+            why := "CRASH(the mapper dereferenced memory outside the simulated physical memory / its recursive window) " }, st)
   | "mh_mmu" =>
     -- software-MMU log of the last `mh_op` (recursive mapper): n × (vpage frame isTable info),
     -- info = walk kind (0 four table levels, 1 ended in a huge entry, 2 not present) + 4 × phase
